@@ -347,10 +347,13 @@ def case_fasta(rng, ctx):
                 seqs.append((h, kind, s, sq, rna))
                 expected.append((h.strip(), s.replace("T", "U") if rna and kind != "prot" else s))
             if len({r[4] for r in seqs}) <= 1 and rng.random() < 0.5:
-                B.fasta.set_sequences(f, OrderedDict((r[0], r[3]) for r in seqs), as_rna=bool(seqs and seqs[0][4]))
+                rna_all = bool(seqs and seqs[0][4])
+                kw = {} if (not rna_all and rng.random() < 0.5) else {"as_rna": rna_all}      # the default is as_rna=False
+                B.fasta.set_sequences(f, OrderedDict((r[0], r[3]) for r in seqs), **kw)
             else:
                 for h, kind, s, sq, rna in seqs:
-                    B.fasta.set_sequence(f, sq, h, as_rna=rna)
+                    kw = {} if (not rna and rng.random() < 0.5) else {"as_rna": rna}
+                    B.fasta.set_sequence(f, sq, h, **kw)
         ctx.check([(h.strip(), v) for h, v in f.items()] == expected and len(f) == len(expected), "fasta_view",
                   "items() of the filled FastaFile differ from what was set", got=_short(list(f.items())))
         if rng.random() < 0.5:
@@ -537,10 +540,12 @@ def _case_fastq(rng, ctx, info):
         else:
             rna = rng.random() < 0.25
             if rng.random() < 0.5:
-                B.fastq.set_sequences(f, OrderedDict((h, (B.Nuc(s), given)) for h, s, given, _, _ in entries), as_rna=rna)
+                kw = {} if (not rna and rng.random() < 0.5) else {"as_rna": rna}      # the default is as_rna=False
+                B.fastq.set_sequences(f, OrderedDict((h, (B.Nuc(s), given)) for h, s, given, _, _ in entries), **kw)
             else:
                 for h, s, given, _, _ in entries:
-                    B.fastq.set_sequence(f, B.Nuc(s), given, h, as_rna=rna)
+                    kw = {} if (not rna and rng.random() < 0.5) else {"as_rna": rna}
+                    B.fastq.set_sequence(f, B.Nuc(s), given, h, **kw)
             if rna:
                 ctx.check(fastq_items_equal(list(f.items()), [(h, s.replace("T", "U"), q) for h, s, q in expected]),
                           "fastq_view", "as_rna view differs")
